@@ -40,9 +40,10 @@ def payloads(c: str, ex: str) -> dict:
 
 SLOTS = ["info.title", "info.description", "info.version", "tag", "operationId", "op.summary", "op.description", "path.literal", "param.query.name", "param.header.name", "param.cookie.name", "param.path.name",
          "param.description", "media_type.request", "schema.key", "schema.title", "schema.description", "schema.example", "property.name", "property.description", "property.example", "property.title", "enum.value", "enum.value.first_alpha",
-         "const.value", "default.string", "default.any", "default.enum_ref", "response.description", "inline.title", "requestBody.description", "enum.description", "param.example", "default.query_param"]
+         "const.value", "default.string", "default.any", "default.enum_ref", "response.description", "inline.title", "requestBody.description", "enum.description", "param.example", "default.query_param",
+         "property.name.ref", "property.name.wrapped_ref", "property.name.model_ref", "param.query.name.ref", "param.header.name.ref", "property.name.array", "property.name.union"]
 
-RUNTIME_SLOTS = {"property.name", "param.query.name", "param.header.name", "param.cookie.name", "enum.value", "enum.value.first_alpha", "default.string", "path.literal", "const.value", "default.any", "default.query_param"}
+RUNTIME_SLOTS = {"property.name.ref", "property.name.wrapped_ref", "property.name.model_ref", "param.query.name.ref", "param.header.name.ref", "property.name.array", "property.name.union","property.name", "param.query.name", "param.header.name", "param.cookie.name", "enum.value", "enum.value.first_alpha", "default.string", "path.literal", "const.value", "default.any", "default.query_param"}
 
 
 def base_doc(version="3.0.3"):
@@ -133,6 +134,18 @@ def inject(d: dict, slot: str, text: str):
     elif slot == "property.name":
         S["Thing"]["properties"][text] = {"type": "string"}
         S["Thing"]["required"].append(text)
+    elif slot in ("property.name.ref", "property.name.wrapped_ref", "property.name.model_ref", "property.name.array", "property.name.union"):
+        S["Sub"] = {"type": "object", "properties": {"s": {"type": "string"}}}
+        S["Thing"]["properties"][text] = {"property.name.ref": {"$ref": f"#/components/schemas/{ek}"}, "property.name.wrapped_ref": {"allOf": [{"$ref": f"#/components/schemas/{ek}"}]}, "property.name.model_ref": {"$ref": "#/components/schemas/Sub"},
+                                          "property.name.array": {"type": "array", "items": {"$ref": "#/components/schemas/Sub"}}, "property.name.union": {"oneOf": [{"$ref": "#/components/schemas/Sub"}, {"type": "integer"}]}}[slot]
+    elif slot == "param.query.name.ref":
+        P[1]["name"] = text
+        P[1]["schema"] = {"$ref": f"#/components/schemas/{ek}"}
+    elif slot == "param.header.name.ref":
+        if not all(33 <= ord(ch) < 127 and ch not in ':"(),/;<=>?@[\\]{}' for ch in text):
+            return None
+        P[2]["name"] = text
+        P[2]["schema"] = {"oneOf": [{"$ref": f"#/components/schemas/{ek}"}]}
     elif slot == "property.description":
         S["Thing"]["properties"]["name"]["description"] = text
     elif slot == "property.example":
